@@ -111,6 +111,7 @@ func traceCase(w *wire.Writer, r *pbfrun.Runner, f *file, procs int, skip [3]boo
 		c.Tok(t).Int(o.FSB[i+1]).Int(o.PFSB[i+1])
 	}
 	c.Int(int64(o.Err))
+	c.Int(o.FSB[len(o.Objs)+1]).Int(o.PFSB[len(o.Objs)+1])
 	// Go-side oracle
 	var starts []int64
 	off := int64(0)
@@ -125,7 +126,11 @@ func traceCase(w *wire.Writer, r *pbfrun.Runner, f *file, procs int, skip [3]boo
 		}
 		for _, t := range fds[i].Objs {
 			if c.OracleFail == "" && (k >= len(o.Objs) || o.Objs[k] != t || o.FSB[k+1] != starts[i] || o.PFSB[k+1] != prev) {
-				c.OracleFail = fmt.Sprintf("object #%d (block %d): expected offsets %d/%d", k+1, fds[i].Block, starts[i], prev)
+				got := "no such object"
+				if k < len(o.Objs) {
+					got = fmt.Sprintf("object %d with FullyScannedBytes %d, Previous %d", o.Objs[k], o.FSB[k+1], o.PFSB[k+1])
+				}
+				c.OracleFail = fmt.Sprintf("object #%d (block %d, token %d): expected offsets %d/%d, observed %s", k+1, fds[i].Block, t, starts[i], prev, got)
 			}
 			k++
 		}
@@ -232,7 +237,7 @@ func main() {
 		fmt.Fprintln(os.Stderr, "c09:", err)
 		os.Exit(1)
 	}
-	nFiles := 10
+	nFiles := 30
 	if a.Tier == "thorough" {
 		nFiles = 60
 	}
@@ -281,11 +286,15 @@ func main() {
 		c := firstTrace.Clone()
 		c.Canary, c.Class = 1, "canary"
 		// the PFSB of the last object (token before err) is shifted
-		c.Toks[len(c.Toks)-2] += 2
+		c.Toks[len(c.Toks)-4] += 2
 		w.Add(c)
 		c = firstTrace.Clone()
 		c.Canary, c.Class = 1, "canary"
-		c.Toks[len(c.Toks)-3] += 2 // FSB of the last object
+		c.Toks[len(c.Toks)-5] += 2 // FSB of the last object
+		w.Add(c)
+		c = firstTrace.Clone()
+		c.Canary, c.Class = 1, "canary"
+		c.Toks[len(c.Toks)-1] += 2 // PFSB after the end of the scan
 		w.Add(c)
 	}
 	if firstStops != nil {
@@ -301,6 +310,7 @@ func main() {
 	}
 	w.Stats["runner:crashes"] = r.Crashes
 	w.Stats["runner:hangs"] = r.Hangs
+	w.Stats["runner:deaths_outside_scan"] = r.OutsideScan
 	if err := w.Flush(a.Out, "Verif.C09.Check", 40); err != nil {
 		fail(err)
 	}
